@@ -18,6 +18,7 @@ def small_of(world):
 
 def run_paths(ctx, R, world, fn, args, key, native=None):
     """executes fn on the world's state; yields outcomes; executor-level memory violations become violations of `key`"""
+    world.seal()
     try:
         outs = world.ex.run(fn, args, world.st)
     except Violation as v:
@@ -282,14 +283,14 @@ def chk_lifecycle(ctx):
             prove(R, W, o.st, z3.And(z3.Not(ok), o.val[0] == EC['INCONSISTENT_DATA']), 'ctor/refuses-only-invalid-windows', native_ctor, small_of(W))
             prove(R, W, o.st, W.ex.peek(o.st, o.st.objs[g['ctrl'].id], 8, 4) == g['uc'], 'ctor/refusal-releases-the-grid', None, small_of(W))
         else:
-            vp, cp, ss, ee = W.read_support(o.st, mem.id)
-            prove(R, W, o.st, z3.And(ok, ss == s, ee == e, vp == g['vec'].base, cp == g['ctrl'].base), 'ctor/accepts-only-valid-windows', native_ctor, small_of(W))
+            ss, ee = W.read_support(o.st, mem.id)
+            prove(R, W, o.st, z3.And(ok, ss == s, ee == e), 'ctor/accepts-only-valid-windows', native_ctor, small_of(W))
             prove(R, W, o.st, W.ex.peek(o.st, o.st.objs[g['ctrl'].id], 8, 4) == g['uc'] + 1, 'ctor/shares-the-grid', None, small_of(W))
         no_input_writes(R, o, 'ctor')
     # copy / move construction, createEmpty / createWholeGrid
     for fn in ('copy', 'move', 'create_empty', 'create_whole'):
         W = World(ctx['mod'], 4); g = W.mk_grid('g', abstract=True); a = W.mk_support('a', g); go = W.mk_grid_obj('gobj', g); mem = W.out('mem', W.sup_size)
-        if fn == 'move': a['obj'].kind = 'inout'
+        if fn == 'move': W.set_kind(a, 'inout')
         arg = bv(a['obj'].base) if fn in ('copy', 'move') else bv(go.base)
         def native_mv(m):
             G = nat.grid(m['g_n']); A = nat.support(G, m['a_start'], m['a_end']); v = [ctypes.c_size_t(7) for _ in range(4)]
@@ -298,19 +299,20 @@ def chk_lifecycle(ctx):
         nf = native_mv if fn == 'move' else None
         for o in run_paths(ctx, R, W, '@w_' + fn, [bv(mem.base), arg], fn, nf):
             if o.kind != 'ret': prove(R, W, o.st, z3.BoolVal(False), fn + '/never-throws', nf, small_of(W)); continue
-            vp, cp, ss, ee = W.read_support(o.st, mem.id)
+            ss, ee = W.read_support(o.st, mem.id)
             exp = {'copy': (a['start'], a['end']), 'move': (a['start'], a['end']), 'create_empty': (bv(0), bv(0)), 'create_whole': (bv(0), g['n'])}[fn]
-            prove(R, W, o.st, z3.And(ss == exp[0], ee == exp[1], vp == g['vec'].base, cp == g['ctrl'].base, valid_window(ss, ee, g['n'])), fn + '/result-valid-and-as-specified', nf, small_of(W))
+            prove(R, W, o.st, z3.And(ss == exp[0], ee == exp[1], valid_window(ss, ee, g['n'])), fn + '/result-valid-and-as-specified', nf, small_of(W))
             prove(R, W, o.st, W.ex.peek(o.st, o.st.objs[g['ctrl'].id], 8, 4) == g['uc'] + 1, fn + '/shares-the-grid', None, small_of(W))
             if fn == 'move':
-                vp2, cp2, s2, e2 = W.read_support(o.st, a['obj'].id)
-                prove(R, W, o.st, z3.And(valid_window(s2, e2, g['n']), z3.ULE(e2 - s2, 1), vp2 == g['vec'].base, cp2 == g['ctrl'].base), 'move/source-becomes-interval-free-on-the-same-grid', nf, small_of(W))
+                s2, e2 = W.read_support(o.st, a['obj'].id)
+                prove(R, W, o.st, z3.And(valid_window(s2, e2, g['n']), z3.ULE(e2 - s2, 1)), 'move/source-becomes-interval-free-on-the-same-grid', nf, small_of(W))
             else:
                 no_input_writes(R, o, fn)
     # move assignment (distinct objects, and self-move) and copy assignment
     for fn, alias in (('move_assign', False), ('move_assign', True), ('copy_assign', False), ('copy_assign', True)):
         W = World(ctx['mod'], 4); g = W.mk_grid('g', abstract=True); d = W.mk_support('d', g); a = d if alias else W.mk_support('a', g)
-        d['obj'].kind = 'inout'; a['obj'].kind = 'inout' if fn == 'move_assign' else a['obj'].kind
+        W.set_kind(d, 'inout')
+        if fn == 'move_assign': W.set_kind(a, 'inout')
         key = fn + ('/self' if alias else '')
         def native_ma(m, alias=alias):
             G = nat.grid(m['g_n']); D = nat.support(G, m['d_start'], m['d_end']); A = D if alias else nat.support(G, m['a_start'], m['a_end']); v = [ctypes.c_size_t(7) for _ in range(4)]
@@ -322,13 +324,13 @@ def chk_lifecycle(ctx):
         nf = native_ma if fn == 'move_assign' else None
         for o in run_paths(ctx, R, W, '@w_' + fn, [bv(d['obj'].base), bv(a['obj'].base)], key, nf):
             if o.kind != 'ret': prove(R, W, o.st, z3.BoolVal(False), key + '/never-throws', nf, small_of(W)); continue
-            vp, cp, ss, ee = W.read_support(o.st, d['obj'].id)
-            prove(R, W, o.st, z3.And(valid_window(ss, ee, g['n']), vp == g['vec'].base, cp == g['ctrl'].base), key + '/target-valid', nf, small_of(W))
+            ss, ee = W.read_support(o.st, d['obj'].id)
+            prove(R, W, o.st, valid_window(ss, ee, g['n']), key + '/target-valid', nf, small_of(W))
             prove(R, W, o.st, W.ex.peek(o.st, o.st.objs[g['ctrl'].id], 8, 4) == g['uc'], key + '/reference-count-balanced', None, small_of(W))
             if not alias:
                 prove(R, W, o.st, z3.And(ss == a['start'], ee == a['end']), key + '/target-takes-the-window', nf, small_of(W))
-                vp2, cp2, s2, e2 = W.read_support(o.st, a['obj'].id)
-                if fn == 'move_assign': prove(R, W, o.st, z3.And(valid_window(s2, e2, g['n']), z3.ULE(e2 - s2, 1), vp2 == g['vec'].base), key + '/source-becomes-interval-free-on-the-same-grid', nf, small_of(W))
+                s2, e2 = W.read_support(o.st, a['obj'].id)
+                if fn == 'move_assign': prove(R, W, o.st, z3.And(valid_window(s2, e2, g['n']), z3.ULE(e2 - s2, 1)), key + '/source-becomes-interval-free-on-the-same-grid', nf, small_of(W))
                 else: prove(R, W, o.st, z3.And(s2 == a['start'], e2 == a['end']), key + '/source-unchanged', None, small_of(W))
             elif fn == 'copy_assign':
                 prove(R, W, o.st, z3.And(ss == d['start'], ee == d['end']), key + '/self-copy-keeps-the-window', None, small_of(W))
